@@ -80,12 +80,12 @@ theorem writeAndFlush_spec (cfg : Cfg σ) (s : St σ) (w : Writer) (r : Rec) (a 
     SameElse cfg s.disk (writeAndFlush cfg s w r).1.disk ∧
     (writeAndFlush cfg s w r).1.tst = s.tst ∧ (writeAndFlush cfg s w r).1.now = s.now ∧
     (writeAndFlush cfg s w r).1.opened = s.opened := by
-  have hlog := BufFile.logical_foldl_writeLoop r { disk := a, buf := [] }
-  simp only [BufFile.logical, List.append_nil] at hlog
+  have hlog := BufFile.logical_foldl_writeLoop [encBytes r] { disk := a, buf := [] }
+  simp only [BufFile.logical, List.append_nil, List.flatten_cons, List.flatten_nil] at hlog
   have hfile : fileOf cfg s.disk = a := fileOf_of_get hg
   simp only [writeAndFlush, writeRec, flushW, hfile, hb]
-  have h1 : fileOf cfg (s.disk.set cfg.path (List.foldl BufFile.writeLoop { disk := a, buf := [] } r).disk) =
-      (List.foldl BufFile.writeLoop { disk := a, buf := [] } r).disk :=
+  have h1 : fileOf cfg (s.disk.set cfg.path (List.foldl BufFile.writeLoop { disk := a, buf := [] } [encBytes r]).disk) =
+      (List.foldl BufFile.writeLoop { disk := a, buf := [] } [encBytes r]).disk :=
     fileOf_of_get (DiskL.get?_set_self _ _ _)
   rw [h1, hlog]
   refine ⟨⟨_, rfl, rfl, DiskL.get?_set_self _ _ _, ?_⟩, trivial, ?_, ?_, trivial, trivial, trivial⟩
@@ -245,6 +245,114 @@ theorem append_pre_spec (cfg : Cfg σ) (s : St σ) (r : Rec) (fault : Nat → Bo
       refine ⟨by rw [e1], by rw [e2, hpt], by rw [e2, hpn], by rw [e2, hpo], fun h => by simp [hans] at h,
         fun h => by simp [hans] at h, fun _ => ?_⟩
       exact ⟨d1, hg1, hse1.trans hsd1, Or.inr ⟨e, hre, by rw [e1], by rw [e1, hro], by rw [e2]; exact hw3, by rw [e2]; exact hd3⟩⟩
+
+/-- What an append whose encoder fails does in pre-process mode (code after 9f38f0b): the policy
+runs and the writer is (re)opened exactly as for a successful append, then nothing is written. -/
+theorem appendFail_pre_spec (cfg : Cfg σ) (s : St σ) (r : Rec) (n : Nat) (fault : Nat → Bool) (hwf : WF cfg s)
+    (hpre : cfg.trig.pre = true) :
+    ∀ a0 fa out s', a0 = openView cfg s → fa = cfg.trig.fire s.tst a0.length s.now →
+      (out, s') = appendFail cfg s r n fault →
+    out.consult = some (a0.length, a0.length) ∧ s'.tst = fa.2 ∧ s'.now = s.now ∧ s'.opened = true ∧
+    (fa.1 = .no → out.res = .errEncode ∧ out.rolled = none ∧ Opened cfg s' a0 ∧ SameElse cfg s.disk s'.disk) ∧
+    (fa.1 = .err → out.res = .errTrigger ∧ out.rolled = none ∧ Opened cfg s' a0 ∧ SameElse cfg s.disk s'.disk) ∧
+    (fa.1 = .yes → ∃ d1, d1.get? cfg.path = some a0 ∧ SameElse cfg s.disk d1 ∧
+        ((∃ x, (cfg.roll cfg.path fault d1).1 = .ok x ∧ out.res = .errEncode ∧ out.rolled = some true ∧
+            Opened cfg s' (fileOf cfg (cfg.roll cfg.path fault d1).2) ∧
+            SameElse cfg (cfg.roll cfg.path fault d1).2 s'.disk) ∨
+         (∃ e, (cfg.roll cfg.path fault d1).1 = .error e ∧ out.res = .errRoll ∧ out.rolled = some false ∧
+            s'.writer = none ∧ s'.disk = (cfg.roll cfg.path fault d1).2))) := by
+  intro a0 fa out s' ha0 hfa hout
+  subst ha0
+  obtain ⟨ho, hw1, hse1, ht1, hn1⟩ := getWriter_spec cfg s hwf.2
+  have hop1 : (getWriter cfg s).1.opened = true := getWriter_opened cfg s (Or.inl hwf.1)
+  have hlen : (getWriter cfg s).2.len = (openView cfg s).length := by
+    obtain ⟨w, hw, _, _, hl⟩ := ho
+    rw [hw1] at hw
+    rw [Option.some.inj hw]
+    exact hl
+  have hfile : (fileOf cfg (getWriter cfg s).1.disk).length = (openView cfg s).length := by
+    obtain ⟨_, _, _, hg, _⟩ := ho
+    rw [fileOf_of_get hg]
+  have hps := process_spec cfg (getWriter cfg s).1 (openView cfg s) (openView cfg s).length fault ho _ fa rfl
+    (by rw [hfa, ht1, hn1])
+  obtain ⟨hpt, hpn, hpo, hno, herr, hyes⟩ := hps
+  rw [hn1] at hpn
+  rw [hop1] at hpo
+  unfold appendFail at hout
+  simp only [hpre, if_true, hlen, hfile] at hout
+  rcases hproc : process cfg (getWriter cfg s).1 (openView cfg s).length fault with ⟨res, rolled, s3⟩
+  rw [hproc] at hout hpt hpn hpo hno herr hyes
+  simp only at hpt hpn hpo hno herr hyes
+  cases hans : fa.1 with
+  | no =>
+    obtain ⟨hr, hro, ho3, hd3⟩ := hno hans
+    subst hr
+    simp only at hout
+    have hwf3 : WFw cfg s3 := Or.inr ⟨_, ho3⟩
+    obtain ⟨ho4, _, hse4, ht4, hn4⟩ := getWriter_spec cfg s3 hwf3
+    have hop4 : (getWriter cfg s3).1.opened = true := getWriter_opened cfg s3 (Or.inl hpo)
+    have hov : openView cfg s3 = openView cfg s := by
+      obtain ⟨w, hw, _, hg, _⟩ := ho3
+      simp [openView, hw, fileOf_of_get hg]
+    rw [hov] at ho4
+    have e1 : out = { res := .errEncode, consult := some ((openView cfg s).length, (openView cfg s).length), rolled := rolled } := (Prod.mk.inj hout).1
+    have e2 : s' = (getWriter cfg s3).1 := (Prod.mk.inj hout).2
+    refine ⟨by rw [e1], by rw [e2, ht4, hpt], by rw [e2, hn4, hpn], by rw [e2, hop4], ?_,
+      fun h => by simp [hans] at h, fun h => by simp [hans] at h⟩
+    intro _
+    refine ⟨by rw [e1], by rw [e1, hro], by rw [e2]; exact ho4, ?_⟩
+    rw [e2]
+    exact (hse1.trans (hd3 ▸ SameElse.refl cfg _)).trans hse4
+  | err =>
+    obtain ⟨hr, hro, ho3, hd3⟩ := herr hans
+    subst hr
+    simp only at hout
+    have e1 : out = { res := .errTrigger, consult := some ((openView cfg s).length, (openView cfg s).length), rolled := rolled } := (Prod.mk.inj hout).1
+    have e2 : s' = s3 := (Prod.mk.inj hout).2
+    refine ⟨by rw [e1], by rw [e2, hpt], by rw [e2, hpn], by rw [e2, hpo], fun h => by simp [hans] at h, ?_,
+      fun h => by simp [hans] at h⟩
+    intro _
+    exact ⟨by rw [e1], by rw [e1, hro], by rw [e2]; exact ho3, by rw [e2, hd3]; exact hse1⟩
+  | yes =>
+    obtain ⟨d1, hg1, hsd1, hw3, hd3, hres⟩ := hyes hans
+    rcases hres with ⟨x, hrx, hr, hro⟩ | ⟨e, hre, hr, hro⟩
+    · subst hr
+      simp only at hout
+      have hwf3 : WFw cfg s3 := Or.inl hw3
+      obtain ⟨ho4, _, hse4, ht4, hn4⟩ := getWriter_spec cfg s3 hwf3
+      have hop4 : (getWriter cfg s3).1.opened = true := getWriter_opened cfg s3 (Or.inl hpo)
+      have hov : openView cfg s3 = fileOf cfg (cfg.roll cfg.path fault d1).2 := by
+        rw [openView_of_opened cfg s3 hpo, hd3]
+      rw [hov] at ho4
+      have e1 : out = { res := .errEncode, consult := some ((openView cfg s).length, (openView cfg s).length), rolled := rolled } := (Prod.mk.inj hout).1
+      have e2 : s' = (getWriter cfg s3).1 := (Prod.mk.inj hout).2
+      refine ⟨by rw [e1], by rw [e2, ht4, hpt], by rw [e2, hn4, hpn], by rw [e2, hop4],
+        fun h => by simp [hans] at h, fun h => by simp [hans] at h, fun _ => ?_⟩
+      refine ⟨d1, hg1, hse1.trans hsd1, Or.inl ⟨x, hrx, by rw [e1], by rw [e1, hro], by rw [e2]; exact ho4, ?_⟩⟩
+      rw [e2, ← hd3]
+      exact hse4
+    · subst hr
+      simp only at hout
+      have e1 : out = { res := .errRoll, consult := some ((openView cfg s).length, (openView cfg s).length), rolled := rolled } := (Prod.mk.inj hout).1
+      have e2 : s' = s3 := (Prod.mk.inj hout).2
+      refine ⟨by rw [e1], by rw [e2, hpt], by rw [e2, hpn], by rw [e2, hpo], fun h => by simp [hans] at h,
+        fun h => by simp [hans] at h, fun _ => ?_⟩
+      exact ⟨d1, hg1, hse1.trans hsd1, Or.inr ⟨e, hre, by rw [e1], by rw [e1, hro], by rw [e2]; exact hw3, by rw [e2]; exact hd3⟩⟩
+
+/-- … and in post-process mode: only `get_writer` has happened -/
+theorem appendFail_post_spec (cfg : Cfg σ) (s : St σ) (r : Rec) (n : Nat) (fault : Nat → Bool) (hwf : WF cfg s)
+    (hpre : cfg.trig.pre = false) :
+    (appendFail cfg s r n fault).1 = { res := .errEncode, consult := none, rolled := none } ∧
+    Opened cfg (appendFail cfg s r n fault).2 (openView cfg s) ∧
+    SameElse cfg s.disk (appendFail cfg s r n fault).2.disk ∧
+    (appendFail cfg s r n fault).2.tst = s.tst ∧ (appendFail cfg s r n fault).2.now = s.now ∧
+    (appendFail cfg s r n fault).2.opened = true := by
+  obtain ⟨ho, _, hse1, ht1, hn1⟩ := getWriter_spec cfg s hwf.2
+  have hop1 : (getWriter cfg s).1.opened = true := getWriter_opened cfg s (Or.inl hwf.1)
+  have h : appendFail cfg s r n fault = ({ res := .errEncode, consult := none, rolled := none }, (getWriter cfg s).1) := by
+    simp [appendFail, hpre]
+  rw [h]
+  exact ⟨rfl, ho, hse1, ht1, hn1, hop1⟩
 
 /-- What `append` does in post-process mode. -/
 theorem append_post_spec (cfg : Cfg σ) (s : St σ) (r : Rec) (fault : Nat → Bool) (hwf : WF cfg s)
